@@ -170,6 +170,25 @@ def _reinit(ctx, cfg):
             else:
                 ok &= not bool((p == 7.0).any())
     ctx.holds("reinitialize/all parameters redrawn (weights random, biases zero)", ok)
+    # history: a state built around a user's module - one constructed with zero weights (as pre-training from scratch
+    # does), or with weights set by hand afterwards - is redrawn like any other
+    from qucumber.rbm import BinaryRBM, PurificationRBM
+    for how in ("module constructed with zero_weights=True", "module with hand-set parameters"):
+        mod = PurificationRBM(2, 3, 1, gpu=False, zero_weights=how.endswith("True")) if kind == "mixed" else BinaryRBM(2, 3, gpu=False, zero_weights=how.endswith("True"))
+        if not how.endswith("True"):
+            with torch.no_grad():
+                for p in mod.parameters():
+                    p.fill_(7.0)
+        s2 = _cls(kind)(99, module=mod, gpu=False)
+        s2.reinitialize_parameters()
+        ok2 = True
+        for net in s2.networks:
+            for n, p in getattr(s2, net).named_parameters():
+                if n.endswith("bias"):
+                    ok2 &= bool((p == 0).all())
+                else:
+                    ok2 &= bool((p != 0).all()) and not bool((p == 7.0).any())
+        ctx.holds("reinitialize/history: %s: all parameters of all networks redrawn (weights random and non-zero, biases zero)" % how, ok2)
 
 
 def _guards(ctx, cfg):
